@@ -148,6 +148,15 @@ def run(case):
         t2 = t.to_annotation().get_timeline()
         t3 = t.to_annotation(generator="int", modality="m").get_timeline()
         out["rt_timeline"] = bool(t == t2) and not bool(t != t2) and bool(t3 == t)
+        if len(t):
+            # a caller-owned name iterator one name short: refused, or else every segment is there all the same
+            try:
+                t4 = t.to_annotation(generator=iter(["n%d" % i for i in range(len(t) - 1)])).get_timeline()
+                assert t4 == t, "to_annotation returned %d of %d segments when the names ran out" % (len(t4), len(t))
+            except (StopIteration, RuntimeError):
+                pass
+            t5 = t.to_annotation(generator=iter(["n%d" % i for i in range(len(t))])).get_timeline()
+            assert t5 == t
         # equality after an in-place edit of a copy: a copy that gained or lost a segment / track differs from its
         # source, the source still equals a fresh copy of itself and has kept its size
         from pyannote.core import Segment as _Seg
